@@ -28,3 +28,59 @@ pub fn powf_pow2(base: f64, e: f64) -> f64 {
     assert!(k as f64 == e && k <= 0 && k >= -15, "powf stub: exponent outside [-15, 0]");
     f64::from_bits(((1023 + k) as u64) << 52)
 }
+
+/// C04 memory clause: cap on every single heap allocation request (bytes).  The decoders derive
+/// their buffer sizes from 8/16-bit counts (at most 65535 x 46-byte cuts, 65535 x 32-byte segments,
+/// 65535 x 31 gate bytes), so 16 MiB is a constant bound with margin; a size taken from an untrusted
+/// 32-bit field exceeds it.
+pub const ALLOC_CAP: usize = 1 << 24;
+
+/// alloc::alloc::alloc / alloc_zeroed / realloc with the cap asserted, then the system allocator.
+pub unsafe fn alloc_capped(layout: core::alloc::Layout) -> *mut u8 {
+    assert!(layout.size() <= ALLOC_CAP, "C04: heap allocation request exceeds the constant cap");
+    std::alloc::GlobalAlloc::alloc(&std::alloc::System, layout)
+}
+pub unsafe fn alloc_zeroed_capped(layout: core::alloc::Layout) -> *mut u8 {
+    assert!(layout.size() <= ALLOC_CAP, "C04: heap allocation request exceeds the constant cap");
+    std::alloc::GlobalAlloc::alloc_zeroed(&std::alloc::System, layout)
+}
+pub unsafe fn realloc_capped(ptr: *mut u8, layout: core::alloc::Layout, new_size: usize) -> *mut u8 {
+    assert!(new_size <= ALLOC_CAP, "C04: heap allocation request exceeds the constant cap");
+    std::alloc::GlobalAlloc::realloc(&std::alloc::System, ptr, layout, new_size)
+}
+
+/// Native side of the cap (concrete playback runs without stubs): the test build of this crate
+/// installs a recording global allocator (lib.rs); this asserts the largest request seen so far.
+/// Under verification it is a no-op (the stubs above assert at the allocation itself).
+pub fn alloc_check() {
+    #[cfg(test)]
+    {
+        let m = crate::native_alloc::max_request();
+        assert!(m <= ALLOC_CAP, "C04: heap allocation request exceeds the constant cap");
+    }
+}
+
+/// core::slice::memchr::{memchr, memrchr} without the word-at-a-time fast path (which aligns a raw
+/// pointer - nondeterministic in CBMC, so `str::split('-')` on a 21-byte name exhausted 10 GB): the
+/// plain byte loop, same result for every input.  With it ChunkIdentifier::sequence is decided on
+/// symbolic names in a minute.
+pub fn memchr_naive(x: u8, text: &[u8]) -> Option<usize> {
+    let mut i = 0;
+    while i < text.len() {
+        if text[i] == x {
+            return Some(i);
+        }
+        i += 1;
+    }
+    None
+}
+pub fn memrchr_naive(x: u8, text: &[u8]) -> Option<usize> {
+    let mut i = text.len();
+    while i > 0 {
+        i -= 1;
+        if text[i] == x {
+            return Some(i);
+        }
+    }
+    None
+}
